@@ -733,9 +733,41 @@ def check_s6(rep, idx):
                         okk = okk and any(re.sub(r"\s", "", A.show(locs[n])) in ("this.end()", "this.m_end_g.back()") for n in gdeps if n in locs) \
                             and e[3][0] == "call" and (e[3][1] or "").split("::")[-1] == "composition"
                     seen[m] = (okk, A.show(e)[:100], x)
-        ok = set(seen) == set(FIVE) and all(v[0] for v in seen.values())
+        # snapshots (t_max(), end()) must be taken before this spline is modified
+        first_write = None
+        for x in A.walk(b):
+            if x.get("kind") in ("BinaryOperator", "CXXOperatorCallExpr", "CallExpr", "CXXMemberCallExpr"):
+                e = A.to_expr(x)
+                tgt = None
+                if e[0] == "op" and e[1] == "=":
+                    t0 = e[2]
+                    while t0[0] in ("sub", "mcall"):
+                        t0 = t0[1]
+                    tgt = member_of_this(t0)
+                elif e[0] == "mcall" and e[2] in ("resize", "push_back", "reserve") and member_of_this(e[1]):
+                    tgt = member_of_this(e[1])
+                if tgt in FIVE + ["m_g0"]:
+                    ln = A.loc(x)[1]
+                    first_write = ln if first_write is None else min(first_write, ln)
+        late = []
+        for x in A.walk(b):
+            if x.get("kind") == "VarDecl" and A.kids(x) and x.get("name") in dep_names(("init", [v[2] if False else ("ref", "tend", None), ("ref", "gend", None)]), {}):
+                pass
+        for x in A.walk(b):
+            if x.get("kind") == "VarDecl" and A.kids(x):
+                init = A.to_expr(A.kids(x)[-1])
+                reads_state = any(m in re.sub(r"\s", "", A.show(init)) for m in ("this.t_max()", "this.end()", "this.m_end_g", "this.m_g0", "this.m_end_t"))
+                used = any(x.get("name") in A.refs(A.to_expr(v[2])) for v in seen.values())
+                if reads_state and used and first_write is not None and A.loc(x)[1] > first_write:
+                    late.append(x)
+        ok = set(seen) == set(FIVE) and all(v[0] for v in seen.values()) and not late
+        for x in late:
+            fx, lx = A.loc(x)
+            rep.violation(Finding("S6", qn, "snapshot-order",
+                                  "`%s` reads this spline's end time/pose after the spline has already been modified (first modification at line %s): "
+                                  "appended segments are placed relative to the wrong junction" % (A.text(x)[:70], first_write), fx, lx))
         rep.instance("S6", qn, "copy-loop", ok=ok, sample={"file": fe.rel(d.file), "line": d.line, "assignments": {k: v[1] for k, v in seen.items()}})
-        if not ok:
+        if not (set(seen) == set(FIVE) and all(v[0] for v in seen.values())):
             badm = [k for k in FIVE if k not in seen or not seen[k][0]]
             x = seen[badm[0]][2] if badm and badm[0] in seen else None
             f, l = A.loc(x) if x else (d.file, d.line)
@@ -900,3 +932,75 @@ def check_s7(rep, idx):
             rep.violation(Finding("S7", "Spline::crop", "end_g",
                                   "segment end pose `%s` is not `localize ? inverse(%s)*X : X`: with localize=false the start pose stays %s (global frame) "
                                   "but this end pose is expressed relative to it, so later segments are offset" % (A.show(e)[:100], ga, ga), f, l))
+
+
+def check_s8(rep, idx):
+    rep.rule("S8", "arclength integrates each segment over [T0, T0 + Del*(min(t,tb)-ta)/(tb-ta)] with the derivative coefficients [3a3, 2a2, a1]", minimum=2)
+    d = one(rep, idx, "Spline::arclength")
+    if d is None:
+        return
+    b = A.body(d.node)
+    loops = [x for x in A.walk(b) if x.get("kind") == "ForStmt"]
+    if not loops:
+        rep.broke("S8: segment loop not found in arclength")
+        return
+    locs = local_defs(loops[0])
+    loop_vars = set()
+    for lp in loops:
+        init = A.kids(lp)[0]
+        if init.get("kind") == "DeclStmt":
+            loop_vars |= {v.get("name") for v in A.kids(init) if v.get("kind") == "VarDecl"}
+    seg_var = next(iter({v.get("name") for v in A.kids(A.kids(loops[0])[0]) if v.get("kind") == "VarDecl"}), "i") if A.kids(loops[0])[0].get("kind") == "DeclStmt" else "i"
+    calls = [x for x in A.walk(b) if x.get("kind") == "CallExpr" and (A.callee_name(A.kids(x)[0]) or "").split("::")[-1] == "integrate_absolute_polynomial"]
+    if len(calls) != 1:
+        rep.broke("S8: expected one call of integrate_absolute_polynomial in arclength, found %d" % len(calls))
+        return
+    e = A.to_expr(calls[0])
+    args = e[2]
+    f, l = A.loc(calls[0])
+
+    def inl(x, depth=0):
+        if depth > 20 or not isinstance(x, tuple):
+            return x
+        if x[0] == "ref" and x[1] in locs and x[1] not in ("coefs", "i", "k") and x[1] not in loop_vars:
+            return inl(locs[x[1]], depth + 1)
+        return tuple(inl(y, depth) if isinstance(y, tuple) else ([inl(z, depth) for z in y] if isinstance(y, list) else y) for y in x)
+    lo, hi = inl(args[0]), inl(args[1])
+    bad = None
+    try:
+        T0, Del, ta, tb = Fraction(1, 4), Fraction(1, 2), Fraction(2), Fraction(5)
+        for t in (Fraction(5, 2), Fraction(4), Fraction(5), Fraction(7), Fraction(100)):
+            env = {"t": t, seg_var: 1, "this.m_seg_T0[1]": T0, "this.m_seg_Del[1]": Del, "this.m_end_t[0]": ta, "this.m_end_t[1]": tb}
+            glo, ghi = pe.ev(lo, env), pe.ev(hi, env)
+            wlo, whi = T0, T0 + Del * (min(t, tb) - ta) / (tb - ta)
+            if (glo, ghi) != (wlo, whi) and bad is None:
+                bad = (t, glo, ghi, wlo, whi)
+    except pe.PEError as ex:
+        rep.broke("S8: cannot evaluate the integration bounds of arclength: %s" % ex)
+        return
+    rep.instance("S8", "Spline::arclength", "bounds", ok=bad is None, sample={"file": fe.rel(f), "line": l, "lower": A.show(lo)[:80], "upper": A.show(hi)[:120]})
+    if bad:
+        rep.violation(Finding("S8", "Spline::arclength", "bounds",
+                              "for a segment with parameter range [T0, T0+Del] = [1/4, 3/4] spanning t in [2, 5], arclength(%s) integrates over [%s, %s]; "
+                              "the curve traversed up to that time is [%s, %s] (an end-cropped segment must not be integrated past its cropped end)"
+                              % (bad[0], bad[1], bad[2], bad[3], bad[4]), f, l))
+    # integrand: derivative coefficients, decided by evaluating the three coefficient arguments on a symbolic coefficient table
+    ok = False
+    pat = [A.show(a) for a in args[2:]]
+    try:
+        kname = next((v for v in loop_vars if v != seg_var), "k")
+        tab = {}
+        for r, val in ((1, 13), (2, 11), (3, 7), (0, 5)):
+            tab["coefs(%d, %s)" % (r, kname)] = val
+            tab["coefs[%d, %s]" % (r, kname)] = val
+        vals = [pe.ev(a, tab) for a in args[2:]]
+        ok = vals == [21, 22, 13]
+    except pe.PEError as ex:
+        rep.broke("S8: cannot evaluate the integrand coefficients of arclength: %s" % ex)
+        return
+    okc = "coefs" in locs and re.sub(r"\s", "", A.show(locs["coefs"])) in ("(kMappedBasisFunction.rightCols(K)*this.m_Vs[i].transpose())",)
+    rep.instance("S8", "Spline::arclength", "integrand", ok=ok and okc, sample={"args": pat, "coefs": A.show(locs.get("coefs", ("num", 0)))[:100]})
+    if not ok:
+        rep.violation(Finding("S8", "Spline::arclength", "integrand", "velocity polynomial passed as %s; d/du (a0+a1 u+a2 u^2+a3 u^3) has coefficients (3 a3, 2 a2, a1)" % pat, f, l))
+    elif not okc:
+        rep.broke("S8: coefficient matrix in arclength is no longer kMappedBasisFunction<K>.rightCols(K) * m_Vs[i].transpose(); re-derive the integrand rule")
